@@ -397,6 +397,7 @@ def run(ctx, rep):
 
     # ---------------- R12.8 -------------------------------------------------------------
     r12_8(ctx, rep)
+    r12_9(ctx, rep)
 
     # ---------------- R12.5 -------------------------------------------------------------
     c09.r09_1_2(ctx, _Rename(rep))
@@ -454,6 +455,11 @@ def r12_8(ctx, rep):
                     e = strip_ids(g.prov_rvalue(inst, st["rv"], (n, si)))
                     fld = [el for el in pl["proj"] if isinstance(el, dict) and "f" in el]
                     fname = fld[-1].get("n") if fld else "?"
+                    # counters only: integer fields (flags and the like say nothing about how many bytes were consumed)
+                    adt = ctx.facts.adts.get((fld[-1].get("adt") or "")) if fld else None
+                    fty = next((f["ty"] for v in (adt or {}).get("variants", []) for f in v["fields"] if f["name"] == fname), "")
+                    if not re.match(r"(usize|u64|u32|u128|i64|isize)$", fty):
+                        continue
                     n_cnt += 1
                     ok = False
                     x = e
@@ -478,6 +484,103 @@ def r12_8(ctx, rep):
         if not bad:
             rep.ok("R12.8", nm_, "one inner read on the caller's buffer; %d counter update(s) = field + delivered count; returns the delivered count" % n_cnt,
                    where=g.where(cn))
+
+
+def _uncast(e):
+    while isinstance(e, tuple) and e and e[0] in ("cast",):
+        e = e[1]
+    return e
+
+
+def r12_9(ctx, rep):
+    """R12.9: the record scan (the Iterator whose next() runs WALRecord::decode on the counting reader) reports, for every decoded record,
+    the segment (counter before the decode, counter after - counter before), and yields no error of its own making."""
+    rep.rule("R12.9", "the record scan attributes to each decoded record exactly the bytes the decoder consumed: the segment it yields is "
+                      "(reader counter read before decode, counter read after decode - that same earlier value), and every io::Error it "
+                      "constructs derives from the decoder's error (a scan that refuses or mis-sizes a record the decoder accepts breaks "
+                      "'decode consumes what encode reported' for every consumer of the scan: open, dump)")
+    adaptors = sorted({(ctx.facts.bodies[k].get("impl_self") or "") for k in ctx.facts.bodies
+                       if (ctx.facts.bodies[k].get("impl_trait") or "").endswith("io::Read") and k.endswith("::read")})
+    names = [re.sub(r"<.*$", "", a).split("::")[-1] for a in adaptors if a]
+    scans = []
+    for k, b in ctx.facts.bodies.items():
+        if (b.get("impl_trait") or "").endswith("iter::Iterator") and k.endswith("::next"):
+            adt = ctx.facts.adts.get(re.sub(r"<.*$", "", b.get("impl_self") or ""))
+            has_adaptor = adt and any(any(nm in f["ty"] for nm in names) for v in adt["variants"] for f in v["fields"])
+            if has_adaptor and inlined_calls(ctx.graph(k), c09.DECODE_KEY):
+                scans.append(k)
+    if not rep.expect("R12.9", "record scan iterator(s) over the counting reader", len(scans) >= 1 and names, "found %d scan(s), adaptors %s" % (len(scans), names)):
+        return
+    acc_rx = r"(%s)::<\w+>::(?!new$|read$)\w+$|(%s)::(?!new$|read$)\w+$" % ("|".join(map(re.escape, names)), "|".join(map(re.escape, names)))
+    for k in scans:
+        g = ctx.graph(k)
+        P = ctx.product(k)
+        nm_ = short_key(k)
+        decs = [n for n in inlined_calls(g, c09.DECODE_KEY, P.live) if g.inst(n).id == 0]
+        segs = [n for n in P.calls(r"Segment::<C>::new$|Segment::new$") if not g.term(n).get("exp")]
+        if not rep.expect("R12.9", "%s: one decode, one segment construction" % nm_, len(decs) == 1 and len(segs) == 1,
+                          "found %d decode call(s), %d Segment::new" % (len(decs), len(segs)), where=g.where(g.entry)):
+            continue
+        dec, seg = decs[0], segs[0]
+        with g.with_opaque(acc_rx):
+            a = [x for x in event_args(g, seg)]
+        a0, a1 = _uncast(a[0]), _uncast(a[1])
+        if a1 and a1[0] == "field" and a1[1][0] == "binop":
+            a1 = a1[1]
+        ok_shape = (a0[0] == "call" and re.search(acc_rx, a0[1]) and a1[0] == "binop" and a1[1].startswith("Sub")
+                    and _uncast(a1[2])[0] == "call" and re.search(acc_rx, _uncast(a1[2])[1]) and _uncast(a1[3]) == a0
+                    and _uncast(a1[2])[3] != a0[3] and _uncast(a1[2])[1] == a0[1])
+        if not ok_shape:
+            rep.violation("R12.9", "%s|segment-not-(before, after-before)" % nm_, "%s: Segment::new" % nm_,
+                          "the segment yielded with a decoded record is (%s, %s), not (counter before decode, counter after - counter before): "
+                          "record offsets/sizes reported by the scan differ from what the decoder consumed"
+                          % (expr_s(strip_ids(a[0]))[:60], expr_s(strip_ids(a[1]))[:90]), where=g.where(seg))
+        else:
+            c1, c2 = a0[3], _uncast(a1[2])[3]
+
+            def step(ms, pi, qi, learn):
+                n = P.gnode(pi)
+                s1, s2, s3 = ms
+                if n == c1:
+                    s1, s2, s3 = True, False, False
+                if n == dec:
+                    s2 = s1
+                    s3 = False
+                if n == c2:
+                    s3 = s2
+                return (s1, s2, s3)
+            seen = run_monitor(P, (False, False, False), step)
+            bad = [(pi, ms) for (pi, ms) in seen if P.gnode(pi) == seg and ms[1] and not (ms[0] and ms[2])]   # paths without a decode cannot reach the Ok closure
+            at_dec = [(pi, ms) for (pi, ms) in seen if P.gnode(pi) == dec and not ms[0]]
+            if bad or at_dec:
+                rep.violation("R12.9", "%s|counter-reads-misordered" % nm_, "%s: order of counter reads" % nm_,
+                              "the 'before' value is not read before the decode, or the 'after' value not after it, on some path", where=g.where(seg))
+            else:
+                rep.ok("R12.9", "%s: segment" % nm_, "(%s read before decode, the same accessor read after decode - that value)" % a0[1].split("::")[-1],
+                       where=g.where(seg))
+        # errors of its own making
+        made = []
+        for n in P.calls(r"io::Error::new$|io::Error::other$|io::Error::from$|convert::From<io::ErrorKind>"):
+            if g.term(n).get("exp") or g.inst(n).id != 0 and g.inst(n).kind != "closure":
+                continue
+            if g.inst(n).id != 0:
+                # closures of the scan itself count (map/context closures); inlined callees (the decoder) do not
+                i = g.inst(n)
+                if i.parent is None or i.parent.id != 0:
+                    continue
+            args = [strip_ids(x) for x in event_args(g, n)]
+            derived = any(contains(x, lambda y: isinstance(y, tuple) and y and y[0] in ("errval", "err_of", "residual")
+                                   or (isinstance(y, tuple) and len(y) > 1 and y[0] in ("call", "ret") and re.search(r"Decode>?::decode$", str(y[1]))))
+                          for x in args)
+            if not derived:
+                made.append(n)
+        for n in made:
+            rep.violation("R12.9", "%s|error-not-from-decoder" % nm_, "%s: io::Error::new" % nm_,
+                          "the scan constructs an error that does not derive from the decoder's result (%s): a record the decoder would accept "
+                          "can be refused - and an UnexpectedEof made up here is taken for a torn tail by recovery"
+                          % ", ".join(expr_s(strip_ids(x))[:50] for x in event_args(g, n)), where=g.where(n))
+        if not made:
+            rep.ok("R12.9", "%s: errors" % nm_, "every error constructed by the scan derives from the decoder's error", where=g.where(dec))
 
 
 class _Rename:
